@@ -672,7 +672,15 @@ LzGetRacy(t, ins, me) ==
                /\ LzBase(t, me) /\ Ret(t, ob.lzmine[t])
        /\ Adv(t) /\ NoRace /\ UNCHANGED cells
 \* k = "yield" / "rmw": the initialiser contains a scheduling point (yield_now / an RMW on an atomic nobody reads)
-LzGet(t, ins, me) == IF ins.k \in {"yield", "rmw"} THEN LzGetRacy(t, ins, me) ELSE LzGetSimple(t, ins, me)
+\* the statics of an execution are destroyed when the closure of the main thread returns (model.rs: lazy_statics.drop()
+\* right after f()); a thread that was not joined and reaches a static after that point is refused ("attempted to access
+\* lazy_static during shutdown"): a usage error that fails the model - never a second instance
+LzShutdown(t) == t # 1 /\ st[1] = "run" /\ pc[1] > Len(Code(1))
+LzRefused(t, ins, me) ==
+  /\ end' = "usage"
+  /\ UNCHANGED <<pc, regs, tv, scv, ob, sub, st>> /\ UnchMem /\ UnchRace
+LzGet(t, ins, me) == IF LzShutdown(t) THEN LzRefused(t, ins, me)
+                     ELSE IF ins.k \in {"yield", "rmw"} THEN LzGetRacy(t, ins, me) ELSE LzGetSimple(t, ins, me)
 \* read the cell that lives inside the published instance (written by its initialiser) through the
 \* reference obtained by the preceding get: ordered after that write iff the get handed over the
 \* publisher's view
